@@ -248,8 +248,10 @@ def run_case(cl, case):
     return "fail", r
 
 
-def run_clause(name, tier, seed, budget_s):
-    """Runs one clause (in the current process). Returns a JSON-able dict."""
+def run_clause(name, tier, seed, budget_s, progress_fd=None):
+    """Runs one clause (in the current process). Returns a JSON-able dict.
+    progress_fd: file descriptor that receives the case about to be evaluated (so that the parent can name the case
+    when native code takes the whole process down)."""
     # make sure clause modules are loaded
     from . import load_all
     load_all()
@@ -270,6 +272,9 @@ def run_clause(name, tier, seed, budget_s):
             exhausted = False
             break
         r = repr(case)
+        if progress_fd is not None:
+            b = r.encode("utf-8", "replace")
+            os.pwrite(progress_fd, b"%12d\n" % len(b) + b, 0)
         status, payload = run_case(cl, case)
         if t_first is None:
             t_first = time.time()
